@@ -484,6 +484,14 @@ def replay(path):
                 return 1
             print("not reproduced")
             return 0
+        if rp["kind"] == "lex":
+            hits = front.confirm_lex(ctx, rp)
+            print(json.dumps(rp.get("observed_again"), indent=1)[:3000])
+            if hits:
+                print("VIOLATION property=%s replay=%s" % (prop, path))
+                return 1
+            print("not reproduced")
+            return 0
         if rp["kind"] == "edit":
             hits = front.confirm_edit(ctx, rp)
             print(json.dumps(rp.get("observed_again"), indent=1)[:3000])
